@@ -178,7 +178,10 @@ func checkC01(c *Ctx) {
 	if !c.Quick() {
 		maxN = 5
 	}
-	jobs := c.c01Jobs(maxN)
+	var jobs []Job
+	if os.Getenv("GV_RANDOM_ONLY") == "" {
+		jobs = c.c01Jobs(maxN)
+	}
 	// random lexical grammars (sampling on the grammar axis, symbolic bytes/runes)
 	nRand, randN := 2, 2
 	if !c.Quick() {
